@@ -10,6 +10,9 @@ type Session struct {
 	a, b *World
 	out  *lineWriter
 	i    int
+	// load twin: the dump object that was loaded, and how it looked at that time
+	forkDump    *ecs.EntityDump
+	forkDumpRec map[string]interface{}
 }
 
 func newSession(h Header, out *lineWriter) *Session {
@@ -44,6 +47,21 @@ func (s *Session) step(op Op) map[string]interface{} {
 		eq := map[string]interface{}{"i": s.i, "w": 0, "op": "TwinEq", "api": s.h.Twin, "of": op.Op,
 			"a": pick(la, "res", "obs", "events", "dump", "panel", "qinfo", "pos"),
 			"b": pick(lb, "res", "obs", "events", "dump", "panel", "qinfo", "pos")}
+		if s.forkDump != nil {
+			// loading must not tie the dump to the loaded world: the dump must still load the same way
+			eq["dumpThen"] = s.forkDumpRec
+			eq["dumpNow"] = dumpRec(s.forkDump)
+			if s.i%7 == 0 {
+				c := NewWorld(Header{CapInc: []int{1, 2, 128}[s.i%3]})
+				r := guard(func(r *result) { c.w.LoadEntities(s.forkDump) })
+				cd := map[string]interface{}{"ok": false}
+				if !r.panicked {
+					d := c.w.DumpEntities()
+					cd = dumpRec(&d)
+				}
+				eq["reload"] = cd
+			}
+		}
 		s.out.write(eq)
 		// A batch removal recycles ids in table order, which legitimately differs between a reset
 		// and a fresh world ("up to iteration order"); later handles are then not comparable.
@@ -113,6 +131,8 @@ func (s *Session) forkLoad() {
 	for range s.a.queries {
 		b.queries = append(b.queries, &openQuery{})
 	}
+	s.forkDump = s.a.lastDump
+	s.forkDumpRec = dumpRec(s.a.lastDump)
 	res := guard(func(r *result) { b.w.LoadEntities(s.a.lastDump) })
 	s.b = b
 	line := newWorldLine(b, 1)
